@@ -30,11 +30,47 @@ def obj_rename(name):
     return r
 
 
+_TERM_CACHE = {}
+
+
+def _ekey(expr):
+    k = getattr(expr, "_fx_dump", None)
+    if k is None:
+        k = ast.dump(expr) if isinstance(expr, ast.AST) else repr(expr)
+        try:
+            expr._fx_dump = k
+        except Exception:
+            pass
+    return k
+
+
 def mkterm(expr, rename=self_rename, env=None, bool_names=()):
+    if env is None:
+        key = ("t", _ekey(expr), rename, tuple(bool_names))
+        if key not in _TERM_CACHE:
+            try:
+                _TERM_CACHE[key] = TermBuilder(env=env, rename=rename, bool_names=bool_names).term(expr)
+            except NotATerm as e:
+                _TERM_CACHE[key] = e
+        r = _TERM_CACHE[key]
+        if isinstance(r, NotATerm):
+            raise r
+        return r
     return TermBuilder(env=env, rename=rename, bool_names=bool_names).term(expr)
 
 
 def mkbool(expr, rename=self_rename, env=None, bool_names=()):
+    if env is None:
+        key = ("b", _ekey(expr), rename, tuple(bool_names))
+        if key not in _TERM_CACHE:
+            try:
+                _TERM_CACHE[key] = TermBuilder(env=env, rename=rename, bool_names=bool_names).boolean(expr)
+            except NotATerm as e:
+                _TERM_CACHE[key] = e
+        r = _TERM_CACHE[key]
+        if isinstance(r, NotATerm):
+            raise r
+        return r
     return TermBuilder(env=env, rename=rename, bool_names=bool_names).boolean(expr)
 
 
